@@ -127,19 +127,27 @@ Committed(C, log) == ComWalk(log, 1, [i \in Pl(C) |-> 0], [i \in Pl(C) |-> 0], [
 (* for which an eligible player has a hand (odd chips to the first), each  *)
 (* of those among the best hands (odd chips to the earliest position).     *)
 (***************************************************************************)
-EligPots(C, St, collected) ==
+\* (TLC evaluates LET definitions and operator arguments lazily, and may evaluate them again at every use; a value that is
+\* used many times is therefore bound once by a quantifier over a singleton set: Bind(e, Op) = Op(e) with e evaluated once)
+Bind(e, F(_)) == CHOOSE y \in {F(c) : c \in {e}} : TRUE
+EligPotsOf(C, St, col) ==
   LET N == Pl(C)
-      sub(i) == IF C.trim THEN 0 ELSE EffAnte(C, i)
-      col == [i \in N |-> collected[i] - sub(i)]
       lone == Cardinality(LiveSet(St)) = 1
-      E(l) == IF lone THEN LiveSet(St) ELSE {j \in N : St.alive[j] /\ col[j] >= l}
-      top == Max({col[i] : i \in N} \cup {0})
-      low == Min({col[i] : i \in N})
-      Layer(l) == Cardinality({i \in N : col[i] >= l})
       pooled == IF C.trim THEN 0 ELSE SumS([i \in N |-> EffAnte(C, i)])
-      Sets == {E(l) : l \in 1..top} \cup (IF pooled > 0 THEN {E(low)} ELSE {})
-      Amt(X) == SumS([l \in 1..top |-> IF E(l) = X THEN Layer(l) ELSE 0]) + (IF X = E(low) THEN pooled ELSE 0)
-  IN {[players |-> X, amount |-> Amt(X)] : X \in {Y \in Sets : Amt(Y) > 0}}
+      \* antes that are not trimmed are dead money of the lowest layer: of the players who reach the lowest column height
+      lowE == IF lone THEN LiveSet(St) ELSE {j \in N : St.alive[j] /\ col[j] >= Min({col[i] : i \in N})}
+      \* all chips lying between two consecutive column heights have the same owners-to-be: those who reach the upper one
+      Body(lv) ==
+        LET E(k) == IF lone THEN LiveSet(St) ELSE {j \in N : St.alive[j] /\ col[j] >= lv[k]}
+            Slab(k) == (lv[k] - (IF k = 1 THEN 0 ELSE lv[k - 1])) * Cardinality({i \in N : col[i] >= lv[k]})
+            Sets == {E(k) : k \in DOMAIN lv} \cup (IF pooled > 0 THEN {lowE} ELSE {})
+            Amt(X) == SumS([k \in DOMAIN lv |-> IF E(k) = X THEN Slab(k) ELSE 0]) + (IF X = lowE THEN pooled ELSE 0)
+        IN {[players |-> X, amount |-> Amt(X)] : X \in {Y \in Sets : Amt(Y) > 0}}
+  IN Bind(SetToSortSeq({col[i] : i \in N} \ {0}, <), Body)
+EligPots(C, St, collected) ==
+  LET sub(i) == IF C.trim THEN 0 ELSE EffAnte(C, i)
+      Body(col) == EligPotsOf(C, St, col)
+  IN Bind([i \in Pl(C) |-> collected[i] - sub(i)], Body)
 
 Split(amount, k, j) == (amount \div k) + (IF j = 1 THEN amount % k ELSE 0)      \* the j-th of k even parts, odd chips to the first
 
@@ -161,17 +169,19 @@ AwardFromPot(C, St, X, u, i) ==
 
 PushedTo(C, log, i) == SumS([j \in DOMAIN log |-> IF log[j].k = "PUSH" THEN log[j].amts[i] ELSE 0])
 AwardRule(C, St, full) ==
-  LET col == Committed(C, full).col
-      pots == EligPots(C, St, col)
-      ps == SetToSeq(pots)
-      un(k) == Rake(C, St, ps[k].amount)[2]
-  IN \A i \in Pl(C) : PushedTo(C, full, i) = SumS([k \in DOMAIN ps |-> AwardFromPot(C, St, ps[k].players, un(k), i)])
+  LET Body(col) ==
+        LET Body2(ps) ==
+              LET un(k) == Rake(C, St, ps[k].amount)[2]
+              IN \A i \in Pl(C) : PushedTo(C, full, i) = SumS([k \in DOMAIN ps |-> AwardFromPot(C, St, ps[k].players, un(k), i)])
+        IN Bind(SetToSeq(EligPots(C, St, col)), Body2)
+  IN Bind(Committed(C, full).col, Body)
 AwardCorollaries(C, St, full) ==
-  LET com == Committed(C, full).com IN
+  LET Body(com) ==
   /\ \A i \in Pl(C) : ~St.alive[i] => PushedTo(C, full, i) = 0                       \* folded, mucked, killed: nothing
   \* nobody wins more from an opponent than he put in (antes that are configured not to be trimmed are dead money by design)
   /\ (C.trim \/ \A j \in Pl(C) : EffAnte(C, j) = 0) => \A i \in Pl(C) : St.payoffs[i] <= SumS([j \in Pl(C) |-> IF j = i THEN 0 ELSE MinI(com[j], com[i])])
   /\ \A i \in Pl(C) : St.payoffs[i] >= 0 - com[i]
+  IN Bind(Committed(C, full).com, Body)
 \* applicable when the hand is over, somebody is still in, and every pot has an eligible live player with a tabled hand
 AwardApplicable(C, St) == ~St.status /\ St.fault = "" /\ LiveSet(St) # {} /\ ~OrphanPot(C, St, St.fpots)
 
@@ -259,20 +269,21 @@ RoundRec(C, St, full) ==
 \* the state's own opening order at the start of the round, i.e. the first actor of the round followed clockwise)
 BettingRuleHolds(C, St, full) ==
   St.actors # <<>> =>
-    LET r0 == RoundRec(C, St, full)
-        first == IF r0.hist = <<>> THEN Head(St.actors) ELSE r0.hist[1].p
-        able0(i) == r0.alive0[i] /\ r0.stack0[i] > 0 /\
-                    LET tot == SortSeq(SelectSeq([j \in 1..C.n |-> IF r0.alive0[j] THEN r0.b0[j] + r0.stack0[j] ELSE -1], LAMBDA x : x >= 0), <)
-                    IN MinI(r0.stack0[i], MaxI(0, tot[Len(tot) - 1] - r0.b0[i])) > 0
-        r == [r0 EXCEPT !.n = C.n] @@ [q0 |-> SelectSeq(Rot(C.n, first), able0)]
-        a == ActorR(r)
-    IN /\ a = Head(St.actors)
-       /\ CanFoldR(r) = (V_Fold(C, St, NoArgs) # "refuse")      \* cash games: a fold without a bet to face is allowed (warned about)
-       /\ CanCallR(r) = (V_CheckCall(C, St, NoArgs) = "ok")
-       /\ BringInPending(r) = (V_BringIn(C, St, NoArgs) = "ok")
-       /\ (CanCallR(r) => CallAmtR(r) = CallAmount(St))
-       /\ RaiseAllowedR(r) = RaiseGate(C, St)
-       /\ (RaiseAllowedR(r) => MinToR(r) = MinTo(C, St) /\ MaxToR(r) = MaxTo(C, St))
+    LET Check(r) ==
+          /\ ActorR(r) = Head(St.actors)
+          /\ CanFoldR(r) = (V_Fold(C, St, NoArgs) # "refuse")      \* cash games: a fold without a bet to face is allowed (warned about)
+          /\ CanCallR(r) = (V_CheckCall(C, St, NoArgs) = "ok")
+          /\ BringInPending(r) = (V_BringIn(C, St, NoArgs) = "ok")
+          /\ (CanCallR(r) => CallAmtR(r) = CallAmount(St))
+          /\ RaiseAllowedR(r) = RaiseGate(C, St)
+          /\ (RaiseAllowedR(r) => MinToR(r) = MinTo(C, St) /\ MaxToR(r) = MaxTo(C, St))
+        WithQ(r0) ==
+          LET first == IF r0.hist = <<>> THEN Head(St.actors) ELSE r0.hist[1].p
+              able0(i) == r0.alive0[i] /\ r0.stack0[i] > 0 /\
+                          LET tot == SortSeq(SelectSeq([j \in 1..C.n |-> IF r0.alive0[j] THEN r0.b0[j] + r0.stack0[j] ELSE -1], LAMBDA x : x >= 0), <)
+                          IN MinI(r0.stack0[i], MaxI(0, tot[Len(tot) - 1] - r0.b0[i])) > 0
+          IN Bind(r0 @@ [q0 |-> SelectSeq(Rot(C.n, first), able0)], Check)
+    IN Bind(RoundRec(C, St, full), WithQ)
 
 (***************************************************************************)
 (* C13: who opens a betting round.                                         *)
@@ -344,7 +355,8 @@ BurnDiscipline(C, St, full) ==
 RunoutOffer(C, St) ==
   AnyT(St.selPend) => /\ ~C.tournament
                       /\ \E k \in (St.street + 1)..NStreets(C) : C.streets[k].board > 0
-                      /\ \A i \in Pl(C) : St.selPend[i] => St.alive[i]
+\* (the offer is made to the players remaining when the showdown begins; one who mucks afterwards keeps his pending choice -
+\* the property does not say the offer is withdrawn, so that is not asserted)
 RunoutChoices(full) == SelectSeq([j \in DOMAIN full |-> IF full[j].k = "RS" THEN full[j].amt ELSE -1], LAMBDA x : x > 0)
 Consensus(full) == LET c == RunoutChoices(full) IN IF c = <<>> THEN 0 ELSE IF \A j \in DOMAIN c : c[j] = c[1] THEN c[1] ELSE 1
 RunoutConsensus(C, St, full) == St.runout = Consensus(full)
